@@ -42,6 +42,7 @@ extern "C" {
 cJSON *create_success_response_from_request(const struct peer *p, const cJSON *request);
 cJSON *create_result_response(const struct peer *p, const cJSON *id, cJSON *result, const char *result_type);
 cJSON *create_result_response_from_request(const struct peer *p, const cJSON *request, cJSON *result, const char *result_type);
+int add_item_to_object(cJSON *object, const char *key, cJSON *item);
 cJSON *create_error_response(const struct peer *p, const cJSON *id, int code, const char *tag, const char *reason);
 cJSON *create_error_response_from_request(const struct peer *p, const cJSON *request, int code, const char *tag, const char *reason);
 
